@@ -1,11 +1,144 @@
-/- Driver ops for C02. -/
+/- Driver ops for C02 (pixel ↔ scaled coordinates, shape masks).  Everything runs on exact `Rat`:
+   the geometry maps are rational functions, `int()` is `Model.truncRat`, and the shape constructors
+   run in their polynomial form with `(cos φ, sin φ)` supplied by the harness as exact rationals. -/
 import Driver.Loop
+import Model.Geometry
+import Model.MaskShapes
 
 open Lean Model
 
 namespace Driver.C02
 
-def ops : List (String × Op) := []
+def getPair (j : Json) : Except String (Rat × Rat) := do
+  match (← getRats j) with
+  | [a, b] => pure (a, b)
+  | _ => throw "expected a pair"
+
+def getShape (j : Json) : Except String (Nat × Nat) := do
+  match (← getNats j) with
+  | [a, b] => pure (a, b)
+  | _ => throw "expected a shape pair"
+
+def pairJ (p : Rat × Rat) : Json := ratsToJson [p.1, p.2]
+def ipairJ (p : Int × Int) : Json := intsToJson [p.1, p.2]
+
+/-- scalar geometry: central pixel / central scaled coordinates, minima, maxima, extent -/
+def geometry : Op := fun j => do
+  let shape ← getShape (← field j "shape")
+  let s ← getPair (← field j "scales")
+  let o ← getPair (← field j "origin")
+  let e := Impl.extent shape s o
+  pure (obj [
+    ("central_pixel", pairJ (Impl.centralPixel2 shape)),
+    ("central_scaled", pairJ (Impl.centralScaled2 shape s o)),
+    ("minima", pairJ (Impl.scaledMinima shape s o)),
+    ("maxima", pairJ (Impl.scaledMaxima shape s o)),
+    ("shape_scaled", pairJ (Impl.shapeNativeScaled shape s)),
+    ("extent", ratsToJson [e.1, e.2.1, e.2.2.1, e.2.2.2])])
+
+/-- scaled → pixel, every code variant, on a list of query points -/
+def pixelOfScaled : Op := fun j => do
+  let shape ← getShape (← field j "shape")
+  let s ← getPair (← field j "scales")
+  let o ← getPair (← field j "origin")
+  let pts ← getList getPair (← field j "points")
+  pure (obj [
+    ("pix_a", listToJson ipairJ (pts.map (Impl.pixelCoordinates2 truncRat shape s o))),
+    ("centres", listToJson ipairJ (Impl.gridPixelCentres2 truncRat shape s o pts)),
+    ("indexes", intsToJson (Impl.gridPixelIndexes2 truncRat shape s o pts)),
+    ("pixels", listToJson pairJ (Impl.gridPixels2 shape s o pts)),
+    ("roundtrip", listToJson pairJ (Impl.gridScaled2 shape s o (Impl.gridPixels2 shape s o pts)))])
+
+/-- pixel → scaled on a list of (possibly fractional) pixel coordinates -/
+def scaledOfPixel : Op := fun j => do
+  let shape ← getShape (← field j "shape")
+  let s ← getPair (← field j "scales")
+  let o ← getPair (← field j "origin")
+  let pix ← getList getPair (← field j "pixels")
+  pure (obj [
+    ("scaled", listToJson pairJ (pix.map (Impl.scaledCoordinates2 shape s o))),
+    ("grid_scaled", listToJson pairJ (Impl.gridScaled2 shape s o pix)),
+    ("roundtrip", listToJson pairJ (Impl.gridPixels2 shape s o (Impl.gridScaled2 shape s o pix)))])
+
+/-- pixel centre → index → back, composed in the model, for every pixel of the frame (row-major) -/
+def centreRoundtrip : Op := fun j => do
+  let shape ← getShape (← field j "shape")
+  let s ← getPair (← field j "scales")
+  let o ← getPair (← field j "origin")
+  pure (listToJson ipairJ ((pixels shape.1 shape.2).map fun p =>
+    Impl.pixelCoordinates2 truncRat shape s o
+      (Impl.scaledCoordinates2 shape s o (((p.1 : Nat) : Rat), ((p.2 : Nat) : Rat)))))
+
+def gridViaMask : Op := fun j => do
+  let m ← getMask (← field j "mask")
+  let s ← getPair (← field j "scales")
+  let o ← getPair (← field j "origin")
+  pure (listToJson pairJ (Impl.grid2dSlimViaMask m s o))
+
+def gridViaShape : Op := fun j => do
+  let shape ← getShape (← field j "shape")
+  let s ← getPair (← field j "scales")
+  let o ← getPair (← field j "origin")
+  pure (listToJson pairJ (Impl.grid2dSlimViaShape shape s o))
+
+def grid1d : Op := fun j => do
+  let bits ← getStr (← field j "bits")
+  let mask := bits.toList.map (· == '1')
+  let s ← getRat (← field j "scale")
+  let o ← getRat (← field j "origin")
+  let pts ← getRats (fieldD j "points" (Json.arr #[]))
+  let pix ← getRats (fieldD j "pixels" (Json.arr #[]))
+  let e := Impl.extent1 mask.length s o
+  pure (obj [
+    ("grid", ratsToJson (Impl.grid1dSlimViaMask mask s o)),
+    ("uniform", ratsToJson (Impl.grid1dSlimViaShape mask.length s o)),
+    ("extent", ratsToJson [e.1, e.2]),
+    ("pix", intsToJson (pts.map (Impl.pixelCoordinates1 truncRat mask.length s o))),
+    ("scaled", ratsToJson (pix.map (Impl.scaledCoordinates1 mask.length s o)))])
+
+/-- the five shape constructors, polynomial form.  Returns the mask and, per pixel (row-major), the
+    squared radial quantities the decision compares against the squared radii, so that the harness can
+    leave decisions inside the property's 1e-9 tie band out of the comparison. -/
+def maskShape : Op := fun j => do
+  let kind ← getStr (← field j "kind")
+  let shape ← getShape (← field j "shape")
+  let s ← getPair (← field j "scales")
+  let c ← getPair (← field j "centre")
+  let r (k : String) : Except String Rat := do getRat (← field j k)
+  let p (k : String) : Except String (Rat × Rat) := do getPair (← field j k)
+  let out (m : Mask) (qs : List (List Rat)) : Json :=
+    obj [("mask", maskToJson m), ("quantities", listToJson ratsToJson qs)]
+  match kind with
+  | "circular" =>
+    pure (out (Impl.maskCircular shape s c (← r "radius")) [Impl.shapeQuantities shape s c Impl.r2])
+  | "annular" =>
+    pure (out (Impl.maskAnnular shape s c (← r "inner") (← r "outer"))
+      [Impl.shapeQuantities shape s c Impl.r2])
+  | "anti_annular" =>
+    pure (out (Impl.maskAntiAnnular shape s c (← r "inner") (← r "outer") (← r "outer2"))
+      [Impl.shapeQuantities shape s c Impl.r2])
+  | "elliptical" =>
+    let q ← r "axis_ratio"
+    let cs ← p "cs"
+    if q == 0 then throw "zero_axis_ratio"
+    pure (out (Impl.maskElliptical shape s c (← r "major") q cs)
+      [Impl.shapeQuantities shape s c (Impl.ellR2 cs q)])
+  | "elliptical_annular" =>
+    let qi ← r "inner_axis_ratio"
+    let qo ← r "outer_axis_ratio"
+    let csi ← p "inner_cs"
+    let cso ← p "outer_cs"
+    if qi == 0 || qo == 0 then throw "zero_axis_ratio"
+    pure (out (Impl.maskEllipticalAnnular shape s c (← r "inner_major") qi csi (← r "outer_major") qo cso)
+      [Impl.shapeQuantities shape s c (Impl.ellR2 csi qi),
+       Impl.shapeQuantities shape s c (Impl.ellR2 cso qo)])
+  | _ => throw "bad kind"
+
+def ops : List (String × Op) :=
+  [("c02.geometry", geometry), ("c02.pixel_of_scaled", pixelOfScaled),
+   ("c02.scaled_of_pixel", scaledOfPixel), ("c02.centre_roundtrip", centreRoundtrip),
+   ("c02.grid_via_mask", gridViaMask),
+   ("c02.grid_via_shape", gridViaShape), ("c02.grid1d", grid1d), ("c02.mask_shape", maskShape)]
 
 end Driver.C02
 
